@@ -55,7 +55,11 @@ def mk_trajectory(f_units, f_space, cg):
     ns = 3
     data = UnitArray([0.5 * k + 0.25 * (k % 3) for k in range(ns * n)], Units(us(f_units + 1), UnitsDimensions(0, 0, 1)))
     t = UnitArray([0.0, 0.5, 2.0], Units(us(f_units + 1), UnitsDimensions(0, 1, 0)))
-    return RDTrajectory(data=data, t_sample=t, system=sc.system, script=sc, engine_description="engine text", engine_option="euler",
+    # the trajectory's own system is NOT the script's (as after coarse-graining, or when the state was edited): other state, other chemostat map
+    own = sc.system.copy()
+    own.state = [2.0 * float(v) + 1.0 for v in sc.system.state.value]
+    own.chemostats = [1 - int(c) for c in sc.system.chemostats]
+    return RDTrajectory(data=data, t_sample=t, system=own, script=sc, engine_description="engine text", engine_option="euler",
                         cgmap=(list(range(sc.system.space.size())) if cg else None))
 
 
